@@ -40,14 +40,33 @@ Theorem transparent :
 Proof. exact transparent_lemma. Qed.
 Print Assumptions transparent.
 
-(* the full statement includes errno; the code never copies the proxy pthread's errno back to the caller *)
+(* errno.  Which of the next two theorems applies is decided by the tables generated from the source:
+   errno_consistent says the source is in exactly one of the two coherent states. *)
+Theorem errno_consistent :
+  errno_carried switch_body proxy_tail wrappers || errno_absent proxy_tail wrappers = true.
+Proof. exact errno_consistent_lemma. Qed.
+Print Assumptions errno_consistent.
+
+(* when the proxy stores errno into the job before the requeue and every system-call wrapper restores it between reading ret
+   and freeing the job: the caller's errno after a wrapper call equals the direct call's, for failing (-1) and successful calls,
+   whatever the recycled job's stale err field held *)
+Theorem transparent_errno :
+  errno_carried switch_body proxy_tail wrappers = true ->
+  forall wrp, In wrp wrappers -> is_syscall_wrapper switch_body wrp = true ->
+  forall e0 gerr ret err, (ret = -1 \/ 0 <= ret) ->
+    errno_after_wrapper proxy_tail wrp e0 gerr ret err = errno_after_direct e0 ret err.
+Proof. exact (errno_tables_lemma switch_body proxy_tail wrappers). Qed.
+Print Assumptions transparent_errno.
+
+(* a wrapper that does not restore errno loses the error code of a failing call (the behaviour before the errno fix) *)
 Theorem transparent_errno_refuted :
-  exists e0 ret err, ret < 0 /\ errno_after_wrapper e0 ret err <> errno_after_direct e0 ret err.
+  forall tail wrp, wrapper_restore wrp = None ->
+  exists e0 gerr ret err, ret < 0 /\ errno_after_wrapper tail wrp e0 gerr ret err <> errno_after_direct e0 ret err.
 Proof. exact errno_refuted_lemma. Qed.
 Print Assumptions transparent_errno_refuted.
 
 Theorem transparent_errno_partial :
-  forall e0 ret err, 0 <= ret -> errno_after_wrapper e0 ret err = errno_after_direct e0 ret err.
+  forall tail wrp e0 gerr ret err, 0 <= ret -> errno_after_wrapper tail wrp e0 gerr ret err = errno_after_direct e0 ret err.
 Proof. exact errno_success_lemma. Qed.
 Print Assumptions transparent_errno_partial.
 
